@@ -155,3 +155,382 @@ Theorem C10_body_budget_refuted :
             plan_cost (body_plan c) = None.
 Proof. exact body_budget_refuted. Qed.
 Print Assumptions C10_body_budget_refuted.
+
+(* ---------------------------------------------------------------------
+   Translator tie (T): the request-data containers are regenerated from
+   poorwsgi/request.py and poorwsgi/fieldstorage.py on every run
+   (harness/py2v_form.py -> gen/FormGen.v, Python semantics lib/PyForm.v)
+   and proved equal to the hand model above, for every container content,
+   key, default and conversion callback (proofs/FormGenEq.v).
+   [*_func_is_model]: which values the callback `func` / `fce` is applied
+   to and where the default is answered; [*_is_model]: called with the
+   generated default values of the parameters (the way the correspondence
+   calls them) the accessor answers the model's result. *)
+Require Import PW.lib.PyForm PW.gen.FormGen PW.proofs.FormGenEq.
+
+(* -- (1) SimpleRequest.query, Args.__init__, the accessors Args inherits *)
+Theorem C10_generated_query_is_model :
+  forall c env qs,
+    dict_lookup (FStr QUERY_STRING) env = Some (FStr qs) \/
+    (dict_lookup (FStr QUERY_STRING) env = None /\ qs = []) ->
+    gen_SimpleRequest_query (FDict c env) = Ok (FStr (strip qs)).
+Proof. exact query_is_model. Qed.
+Print Assumptions C10_generated_query_is_model.
+
+Theorem C10_generated_args_init_is_model :
+  forall c env qs keep kb,
+    dict_lookup (FStr QUERY_STRING) env = Some (FStr qs) \/
+    (dict_lookup (FStr QUERY_STRING) env = None /\ qs = []) ->
+    p_truth keep = Ok kb ->
+    gen_Args_init (FDict DArgs []) (FDict c env) keep gen_Args_init_default_3 =
+    Ok (emb_args (args_of kb qs)).
+Proof. exact args_init_is_model. Qed.
+Print Assumptions C10_generated_args_init_is_model.
+
+Theorem C10_generated_args_getvalue_is_model :
+  forall apply d k,
+    gen_Args_getvalue apply (emb_args d) (FStr k)
+      gen_iface_getvalue_default_2 gen_iface_getvalue_default_3 =
+    emb_tres (a_getvalue d k).
+Proof. exact args_getvalue_is_model. Qed.
+Print Assumptions C10_generated_args_getvalue_is_model.
+
+Theorem C10_generated_args_getfirst_is_model :
+  forall apply d k,
+    gen_Args_getfirst apply (emb_args d) (FStr k)
+      gen_iface_getfirst_default_2 gen_iface_getfirst_default_3
+      gen_iface_getfirst_default_4 =
+    emb_tres (a_getfirst d k).
+Proof. exact args_getfirst_is_model. Qed.
+Print Assumptions C10_generated_args_getfirst_is_model.
+
+Theorem C10_generated_args_getlist_is_model :
+  forall apply d k,
+    gen_Args_getlist apply (emb_args d) (FStr k)
+      gen_iface_getlist_default_2 gen_iface_getlist_default_3
+      gen_iface_getlist_default_4 =
+    emb_tres (a_getlist d k).
+Proof. exact args_getlist_is_model. Qed.
+Print Assumptions C10_generated_args_getlist_is_model.
+
+Theorem C10_generated_args_getvalue_func_is_model :
+  forall apply d k dflt f,
+    gen_Args_getvalue apply (emb_args d) (FStr k) dflt f =
+    match lookup k d with
+    | None => Ok dflt
+    | Some a => p_call apply f (emb_aval a)
+    end.
+Proof. exact args_getvalue_spec. Qed.
+Print Assumptions C10_generated_args_getvalue_func_is_model.
+
+Theorem C10_generated_args_getfirst_func_is_model :
+  forall apply d k dflt f fce b,
+    p_truth fce = Ok b ->
+    gen_Args_getfirst apply (emb_args d) (FStr k) dflt f fce =
+    match lookup k d with
+    | None => Ok dflt
+    | Some (AS s) => p_call apply (pick b fce f) (FStr s)
+    | Some (AL []) => Ok dflt
+    | Some (AL (x :: _)) => p_call apply (pick b fce f) (FStr x)
+    end.
+Proof. exact args_getfirst_spec. Qed.
+Print Assumptions C10_generated_args_getfirst_func_is_model.
+
+Theorem C10_generated_args_getlist_func_is_model :
+  forall apply d k dflt f fce b bd,
+    p_truth fce = Ok b -> p_truth dflt = Ok bd ->
+    gen_Args_getlist apply (emb_args d) (FStr k) dflt f fce =
+    match lookup k d with
+    | None => Ok (or_empty bd dflt)
+    | Some (AS s) => bind (p_call apply (pick b fce f) (FStr s))
+                          (fun v => Ok (FList LPlain [v]))
+    | Some (AL l) => bind (map_res (p_call apply (pick b fce f)) (map FStr l))
+                          (fun vs => Ok (FList LPlain vs))
+    end.
+Proof. exact args_getlist_spec. Qed.
+Print Assumptions C10_generated_args_getlist_func_is_model.
+
+(* -- (3) EmptyForm, JsonDict (inherited accessors), JsonList *)
+Theorem C10_generated_emptyform_getvalue_is_model :
+  forall self k,
+    gen_EmptyForm_getvalue self (FStr k) gen_EmptyForm_getvalue_default_2
+      gen_EmptyForm_getvalue_default_3 = emb_tres (e_getvalue k).
+Proof. exact empty_getvalue_is_model. Qed.
+Print Assumptions C10_generated_emptyform_getvalue_is_model.
+
+Theorem C10_generated_emptyform_getfirst_is_model :
+  forall self k,
+    gen_EmptyForm_getfirst self (FStr k) gen_EmptyForm_getfirst_default_2
+      gen_EmptyForm_getfirst_default_3 gen_EmptyForm_getfirst_default_4 =
+    emb_tres (e_getfirst k).
+Proof. exact empty_getfirst_is_model. Qed.
+Print Assumptions C10_generated_emptyform_getfirst_is_model.
+
+Theorem C10_generated_emptyform_getlist_is_model :
+  forall self k,
+    gen_EmptyForm_getlist self (FStr k) gen_EmptyForm_getlist_default_2
+      gen_EmptyForm_getlist_default_3 gen_EmptyForm_getlist_default_4 =
+    emb_tres (e_getlist k).
+Proof. exact empty_getlist_is_model. Qed.
+Print Assumptions C10_generated_emptyform_getlist_is_model.
+
+(* whatever is handed in: the default, never a conversion *)
+Theorem C10_generated_emptyform_func_is_model :
+  forall self k dflt f fce b bd,
+    p_truth fce = Ok b -> p_truth dflt = Ok bd ->
+    gen_EmptyForm_getvalue self k dflt f = Ok dflt /\
+    gen_EmptyForm_getfirst self k dflt f fce = Ok dflt /\
+    gen_EmptyForm_getlist self k dflt f fce = Ok (or_empty bd dflt).
+Proof.
+  intros self k dflt f fce b bd Hb Hd. split; [|split].
+  - apply empty_getvalue_spec.
+  - exact (empty_getfirst_spec self k dflt f fce b Hb).
+  - exact (empty_getlist_spec self k dflt f fce b bd Hb Hd).
+Qed.
+Print Assumptions C10_generated_emptyform_func_is_model.
+
+Theorem C10_generated_jsondict_getvalue_is_model :
+  forall apply d k dflt,
+    gen_JsonDict_getvalue apply (emb_jsondict d) (FStr k) dflt
+      gen_iface_getvalue_default_3 = emb_jres dflt (jd_getvalue d k).
+Proof. exact jsondict_getvalue_is_model. Qed.
+Print Assumptions C10_generated_jsondict_getvalue_is_model.
+
+Theorem C10_generated_jsondict_getfirst_is_model :
+  forall apply d k dflt,
+    gen_JsonDict_getfirst apply (emb_jsondict d) (FStr k) dflt
+      gen_iface_getfirst_default_3 gen_iface_getfirst_default_4 =
+    emb_jres dflt (jd_getfirst d k).
+Proof. exact jsondict_getfirst_is_model. Qed.
+Print Assumptions C10_generated_jsondict_getfirst_is_model.
+
+Theorem C10_generated_jsondict_getlist_is_model :
+  forall apply d k,
+    gen_JsonDict_getlist apply (emb_jsondict d) (FStr k)
+      gen_iface_getlist_default_2 gen_iface_getlist_default_3
+      gen_iface_getlist_default_4 =
+    emb_jres gen_iface_getlist_default_2 (jd_getlist d k).
+Proof. exact jsondict_getlist_is_model. Qed.
+Print Assumptions C10_generated_jsondict_getlist_is_model.
+
+Theorem C10_generated_jsondict_getvalue_func_is_model :
+  forall apply d k dflt f,
+    gen_JsonDict_getvalue apply (emb_jsondict d) (FStr k) dflt f =
+    match lookup k d with
+    | None => Ok dflt
+    | Some j => p_call apply f (emb_j j)
+    end.
+Proof. exact jsondict_getvalue_spec. Qed.
+Print Assumptions C10_generated_jsondict_getvalue_func_is_model.
+
+Theorem C10_generated_jsondict_getfirst_func_is_model :
+  forall apply d k dflt f fce b,
+    p_truth fce = Ok b ->
+    gen_JsonDict_getfirst apply (emb_jsondict d) (FStr k) dflt f fce =
+    match lookup k d with
+    | None => Ok dflt
+    | Some (JArr []) => Ok dflt
+    | Some (JArr (x :: _)) => p_call apply (pick b fce f) (emb_j x)
+    | Some j => p_call apply (pick b fce f) (emb_j j)
+    end.
+Proof. exact jsondict_getfirst_spec. Qed.
+Print Assumptions C10_generated_jsondict_getfirst_func_is_model.
+
+Theorem C10_generated_jsondict_getlist_func_is_model :
+  forall apply d k dflt f fce b bd,
+    p_truth fce = Ok b -> p_truth dflt = Ok bd ->
+    gen_JsonDict_getlist apply (emb_jsondict d) (FStr k) dflt f fce =
+    match lookup k d with
+    | None => Ok (or_empty bd dflt)
+    | Some (JArr l) =>
+        bind (map_res (p_call apply (pick b fce f)) (map emb_j l))
+             (fun vs => Ok (FList LPlain vs))
+    | Some j => bind (p_call apply (pick b fce f) (emb_j j))
+                     (fun v => Ok (FList LPlain [v]))
+    end.
+Proof. exact jsondict_getlist_spec. Qed.
+Print Assumptions C10_generated_jsondict_getlist_func_is_model.
+
+Theorem C10_generated_jsonlist_getvalue_is_model :
+  forall apply l k dflt,
+    gen_JsonList_getvalue apply (emb_jsonlist l) k dflt
+      gen_JsonList_getvalue_default_3 = emb_jres dflt (jl_getvalue l).
+Proof. exact jsonlist_getvalue_is_model. Qed.
+Print Assumptions C10_generated_jsonlist_getvalue_is_model.
+
+Theorem C10_generated_jsonlist_getfirst_is_model :
+  forall apply l k dflt,
+    gen_JsonList_getfirst apply (emb_jsonlist l) k dflt
+      gen_JsonList_getfirst_default_3 gen_JsonList_getfirst_default_4 =
+    emb_jres dflt (jl_getfirst l).
+Proof. exact jsonlist_getfirst_is_model. Qed.
+Print Assumptions C10_generated_jsonlist_getfirst_is_model.
+
+Theorem C10_generated_jsonlist_getlist_is_model :
+  forall apply l k,
+    gen_JsonList_getlist apply (emb_jsonlist l) k
+      gen_JsonList_getlist_default_2 gen_JsonList_getlist_default_3
+      gen_JsonList_getlist_default_4 =
+    emb_jres gen_JsonList_getlist_default_2 (jl_getlist l).
+Proof. exact jsonlist_getlist_is_model. Qed.
+Print Assumptions C10_generated_jsonlist_getlist_is_model.
+
+Theorem C10_generated_jsonlist_func_is_model :
+  forall apply l k dflt f fce b bd,
+    p_truth fce = Ok b -> p_truth dflt = Ok bd ->
+    gen_JsonList_getvalue apply (emb_jsonlist l) k dflt f =
+      match l with
+      | [] => Ok dflt
+      | x :: _ => p_call apply f (emb_j x)
+      end /\
+    gen_JsonList_getfirst apply (emb_jsonlist l) k dflt f fce =
+      match l with
+      | [] => Ok dflt
+      | x :: _ => p_call apply (pick b fce f) (emb_j x)
+      end /\
+    gen_JsonList_getlist apply (emb_jsonlist l) k dflt f fce =
+      match l with
+      | [] => Ok (or_empty bd dflt)
+      | _ => bind (map_res (p_call apply (pick b fce f)) (map emb_j l))
+                  (fun vs => Ok (FList LPlain vs))
+      end.
+Proof.
+  intros apply l k dflt f fce b bd Hb Hd. split; [|split].
+  - apply jsonlist_getvalue_spec.
+  - exact (jsonlist_getfirst_spec apply l k dflt f fce b Hb).
+  - exact (jsonlist_getlist_spec apply l k dflt f fce b bd Hb Hd).
+Qed.
+Print Assumptions C10_generated_jsonlist_func_is_model.
+
+(* -- (2) FieldStorage *)
+(* .value of a field made by read_urlencoded: its string, '' included *)
+Theorem C10_generated_form_value_is_model :
+  forall f, gen_FieldStorage_value (emb_field f) = Ok (emb_okz (fval (snd f))).
+Proof. exact form_value_is_model. Qed.
+Print Assumptions C10_generated_form_value_is_model.
+
+Theorem C10_generated_form_contains_is_model :
+  forall fs k,
+    gen_FieldStorage_contains (emb_form fs) (FStr k) =
+    Ok (FBool (f_contains fs k)).
+Proof. exact form_contains_is_model. Qed.
+Print Assumptions C10_generated_form_contains_is_model.
+
+Theorem C10_generated_form_getitem_is_model :
+  forall fs k,
+    gen_FieldStorage_getitem (emb_form fs) (FStr k) =
+    emb_fitem (f_getitem fs k).
+Proof. exact form_getitem_is_model. Qed.
+Print Assumptions C10_generated_form_getitem_is_model.
+
+Theorem C10_generated_form_keys_is_model :
+  forall fs,
+    gen_FieldStorage_keys (emb_form fs) =
+    Ok (FList LPlain (map FStr (first_occ [] (map fst fs)))).
+Proof. exact form_keys_is_model. Qed.
+Print Assumptions C10_generated_form_keys_is_model.
+
+Theorem C10_generated_form_getvalue_is_model :
+  forall apply fs k,
+    gen_FieldStorage_getvalue apply (emb_form fs) (FStr k)
+      gen_FieldStorage_getvalue_default_2 gen_FieldStorage_getvalue_default_3 =
+    emb_tres (f_getvalue fs k).
+Proof. exact form_getvalue_is_model. Qed.
+Print Assumptions C10_generated_form_getvalue_is_model.
+
+Theorem C10_generated_form_getfirst_is_model :
+  forall apply fs k,
+    gen_FieldStorage_getfirst apply (emb_form fs) (FStr k)
+      gen_FieldStorage_getfirst_default_2 gen_FieldStorage_getfirst_default_3
+      gen_FieldStorage_getfirst_default_4 =
+    emb_tres (f_getfirst fs k).
+Proof. exact form_getfirst_is_model. Qed.
+Print Assumptions C10_generated_form_getfirst_is_model.
+
+Theorem C10_generated_form_getlist_is_model :
+  forall apply fs k,
+    gen_FieldStorage_getlist apply (emb_form fs) (FStr k)
+      gen_FieldStorage_getlist_default_2 gen_FieldStorage_getlist_default_3
+      gen_FieldStorage_getlist_default_4 =
+    emb_tres (f_getlist fs k).
+Proof. exact form_getlist_is_model. Qed.
+Print Assumptions C10_generated_form_getlist_is_model.
+
+Theorem C10_generated_form_getvalue_func_is_model :
+  forall apply fs k dflt f,
+    gen_FieldStorage_getvalue apply (emb_form fs) (FStr k) dflt f =
+    if f_contains fs k then
+      match f_getitem fs k with
+      | None => Err (Raised "KeyError"%string)
+      | Some (FOne x) => p_call apply f (FStr (snd x))
+      | Some (FMany l) =>
+          bind (map_res (p_call apply f) (map (fun x : K * K => FStr (snd x)) l))
+               (fun vs => Ok (FList LPlain vs))
+      end
+    else Ok dflt.
+Proof. exact form_getvalue_spec. Qed.
+Print Assumptions C10_generated_form_getvalue_func_is_model.
+
+Theorem C10_generated_form_getfirst_func_is_model :
+  forall apply fs k dflt f fce b,
+    p_truth fce = Ok b ->
+    gen_FieldStorage_getfirst apply (emb_form fs) (FStr k) dflt f fce =
+    if f_contains fs k then
+      match f_getitem fs k with
+      | None => Err (Raised "KeyError"%string)
+      | Some (FOne x) => p_call apply (pick b fce f) (FStr (snd x))
+      | Some (FMany []) => Err (Raised "IndexError"%string)
+      | Some (FMany (x :: _)) => p_call apply (pick b fce f) (FStr (snd x))
+      end
+    else Ok dflt.
+Proof. exact form_getfirst_spec. Qed.
+Print Assumptions C10_generated_form_getfirst_func_is_model.
+
+(* for every FieldStorage object: getvalue with default None and the
+   callback; a list stays, only None gives `default or []`, any other value
+   ('' too) is wrapped *)
+Theorem C10_generated_form_getlist_func_is_model :
+  forall apply self k dflt f fce b bd,
+    p_truth fce = Ok b -> p_truth dflt = Ok bd ->
+    gen_FieldStorage_getlist apply self k dflt f fce =
+    bind (gen_FieldStorage_getvalue apply self k FNone (pick b fce f))
+         (fun v => Ok (listify bd dflt v)).
+Proof. exact form_getlist_spec. Qed.
+Print Assumptions C10_generated_form_getlist_func_is_model.
+
+(* -- (4) parse_json_request, for every decoder and every JSON parser that
+   answers objects with distinct keys *)
+Theorem C10_generated_parse_json_request_is_model :
+  forall decode loads raw charset,
+    loads_dicts loads ->
+    gen_parse_json_request decode loads (FBytes raw) (FStr charset) =
+    emb_json_out (parse_json_request decode loads raw charset).
+Proof. exact parse_json_is_model. Qed.
+Print Assumptions C10_generated_parse_json_request_is_model.
+
+(* -- (5) the decisions of Request.__init__ over the model's cfg *)
+Theorem C10_generated_is_body_request_is_model :
+  forall c, gen_is_body_request c = is_body_request c.
+Proof. exact is_body_request_is_model. Qed.
+Print Assumptions C10_generated_is_body_request_is_model.
+
+Theorem C10_generated_init_buffered_is_model :
+  forall c, gen_init_buffered c = buffered c.
+Proof. exact init_buffered_is_model. Qed.
+Print Assumptions C10_generated_init_buffered_is_model.
+
+Theorem C10_generated_init_json_branch_is_model :
+  forall c, gen_init_json_branch c = json_branch c.
+Proof. exact init_json_branch_is_model. Qed.
+Print Assumptions C10_generated_init_json_branch_is_model.
+
+Theorem C10_generated_init_form_branch_is_model :
+  forall c, gen_init_form_branch c = form_branch c.
+Proof. exact init_form_branch_is_model. Qed.
+Print Assumptions C10_generated_init_form_branch_is_model.
+
+(* the stream is buffered before the body is parsed, as [body_plan] asks *)
+Theorem C10_generated_init_steps_is_model :
+  gen_init_steps = [SBuffer; SArgs; SBody; SCookies].
+Proof. exact init_steps_is_model. Qed.
+Print Assumptions C10_generated_init_steps_is_model.
